@@ -51,23 +51,38 @@ def tokenize : List String → List Tok
     else if x.startsWith "-" then .unknown x :: tokenize (y :: r)
     else .free x :: tokenize (y :: r)
 
-/-- options that only affect what is printed or how files are loaded -/
+/-- the values `--color` accepts (`cmd::run`) -/
+def validColor (x : String) : Bool := x == "always" || x == "never" || x == "auto"
+
+/-- the analyses `-A` accepts (`cmd_push`: compared ignoring ASCII case) -/
+def validAnalysis (x : String) : Bool := x == "multiapply" || x.toLower == "multiapply"
+
+/-- options that only affect what is printed or how files are loaded (with a value the tool accepts) -/
 def Tok.isPresentation : Tok → Bool
-  | .quiet | .verbose | .mmap | .stats | .color _ | .analyze _ => true
+  | .quiet | .verbose | .mmap | .stats => true
+  | .color x => validColor x
+  | .analyze x => validAnalysis x
   | _ => false
 
 structure Inv where
   cfg : Cfg := {}
   threads : Nat := 1
-  /-- an option the model does not understand -/
+  /-- an option or option value that is refused before anything is read (unknown option, bad value of
+  `--backup`, `--backup-count`, `--color`) -/
   bad : Bool := false
+  /-- a value that is only looked at when there is something to apply (`-A <unknown analysis>`, a
+  `--threads` value that is not a number): refused then, not noticed when all patches are applied -/
+  badLate : Bool := false
 deriving Repr
 
 def natOf (s : String) : Nat := s.toNat?.getD 0
 
 def parse : List Tok → Inv → Inv
   | [], i => i
-  | .threads n :: r, i => parse r { i with threads := natOf n }
+  | .threads n :: r, i =>
+    match n.toNat? with
+    | some k => parse r { i with threads := k }
+    | none => parse r { i with badLate := true }
   | .backup x :: r, i =>
     if x == "always" then parse r { i with cfg := { i.cfg with backup := .always } }
     else if x == "never" then parse r { i with cfg := { i.cfg with backup := .never } }
@@ -75,19 +90,32 @@ def parse : List Tok → Inv → Inv
     else { i with bad := true }
   | .backupCount x :: r, i =>
     if x == "all" then parse r { i with cfg := { i.cfg with backupCount := none } }
-    else parse r { i with cfg := { i.cfg with backupCount := some (natOf x) } }
+    else match x.toNat? with
+      | some n => parse r { i with cfg := { i.cfg with backupCount := some n } }
+      | none => { i with bad := true }
   | .fuzz n :: r, i => parse r { i with cfg := { i.cfg with fuzz := natOf n } }
   | .dryRun :: r, i => parse r { i with cfg := { i.cfg with dryRun := true } }
   | .all :: r, i => parse r { i with cfg := { i.cfg with goal := .all } }
-  | .quiet :: r, i | .verbose :: r, i | .mmap :: r, i | .stats :: r, i | .color _ :: r, i | .analyze _ :: r, i => parse r i
+  | .quiet :: r, i | .verbose :: r, i | .mmap :: r, i | .stats :: r, i => parse r i
+  | .color x :: r, i => if validColor x then parse r i else { i with bad := true }
+  | .analyze x :: r, i => if validAnalysis x then parse r i else parse r { i with badLate := true }
   | .free x :: r, i =>
     match x.toNat? with
     | some n => parse r { i with cfg := { i.cfg with goal := .count n } }
     | none => parse r { i with cfg := { i.cfg with goal := .upTo x.toUTF8.toList } }
   | .unknown _ :: _, i => { i with bad := true }
 
+/-- `cmd::run` + `cmd_push` for a parsed invocation: option values are validated in two places, before
+the quilt state is read and after it is known that there is something to apply -/
+def pushInv (i : Inv) (w : World) : Outcome × World :=
+  if i.bad then (.error, w)
+  else match plan i.cfg w.fs with
+    | .refuse => (.error, w)
+    | .nothingToDo => (.allApplied, w)
+    | .apply range => if i.badLate then (.error, w) else pushRange i.cfg w range
+
 /-- the whole invocation (single-threaded driver) from option tokens -/
-def pushToks (toks : List Tok) (w : World) : Outcome × World := push (parse toks {}).cfg w
+def pushToks (toks : List Tok) (w : World) : Outcome × World := pushInv (parse toks {}) w
 
 /-- the whole invocation from the argument strings -/
 def pushArgs (args : List String) (w : World) : Outcome × World := pushToks (tokenize args) w
